@@ -4,6 +4,7 @@ package main
 
 import (
 	"fmt"
+	"go/types"
 	"sort"
 	"strings"
 
@@ -721,10 +722,17 @@ func c01Candidates(r *Run, a *c01Anchors) {
 // c01CandidateStore checks one store to Result.PodsToCreate. requireCanary != "" additionally
 // demands (for C04.R4) that every candidate has the canary form; the rule id is then requireCanary.
 func c01CandidateStore(r *Run, fn *ssa.Function, st *ssa.Store, requireCanary string) {
-	ff := computeFacts(fn)
-	k := ff.K
 	pos := r.Prog.Pos(instrPos(st))
-	apps, leaves := sliceChainC(st.Val)
+	// the list may be collected by a helper (returned directly or as a field of a returned struct):
+	// every append is judged by the facts of the function it is in
+	apps, leaves := sliceChainIPC(st.Val)
+	ffs := map[*ssa.Function]*FuncFacts{}
+	factsIn := func(f *ssa.Function) *FuncFacts {
+		if ffs[f] == nil {
+			ffs[f] = computeFacts(f)
+		}
+		return ffs[f]
+	}
 	rule := "C01.R4"
 	if requireCanary != "" {
 		rule = requireCanary
@@ -734,7 +742,7 @@ func c01CandidateStore(r *Run, fn *ssa.Function, st *ssa.Store, requireCanary st
 		for _, v := range leaves {
 			s = append(s, descValueC(v))
 		}
-		r.Undecided(rule, "store Result.PodsToCreate", pos, shortFunc(fn), "the stored list has sources other than appends in this function: "+strings.Join(s, ", "))
+		r.Undecided(rule, "store Result.PodsToCreate", pos, shortFunc(fn), "the stored list has sources other than appends (in this function or in the helper that collects it): "+strings.Join(s, ", "))
 		return
 	}
 	if len(apps) == 0 {
@@ -742,13 +750,16 @@ func c01CandidateStore(r *Run, fn *ssa.Function, st *ssa.Store, requireCanary st
 		return
 	}
 	sort.Slice(apps, func(i, j int) bool { return apps[i].Pos() < apps[j].Pos() })
-	var sloops []*sliceLoopC
-	for _, l := range sliceLoopsC(fn) {
-		if isFieldLoadC(l.Slice, pkgStrategy, "Parameters", "CanaryNodes") {
-			sloops = append(sloops, l)
-		}
-	}
 	for _, ap := range apps {
+		fn := ap.Parent()
+		ff := factsIn(fn)
+		k := ff.K
+		var sloops []*sliceLoopC
+		for _, l := range sliceLoopsC(fn) {
+			if isFieldLoadC(l.Slice, pkgStrategy, "Parameters", "CanaryNodes") {
+				sloops = append(sloops, l)
+			}
+		}
 		apos := r.Prog.Pos(instrPos(ap))
 		_, elems, spread := appendPartsC(ap)
 		if spread != nil {
@@ -1164,38 +1175,20 @@ func c01Less(r *Run, less *ssa.Function) {
 		}
 		return -1, nil
 	}
-	// schedOf: what the fact says about "pod i / pod j is scheduled" (who = -1: nothing)
+	// schedOf: what the fact says about "pod i / pod j is scheduled" (who = -1: nothing). A fact is
+	// either a comparison of x.Spec.NodeName (or its length) with the empty value, or the result of a
+	// repository predicate P(x) that is itself decided (on every path) by such a comparison.
 	schedOf := func(f Fact) (who int, val bool) {
-		cf, ok := decodeCmpC(f)
-		if !ok {
-			return -1, false
+		if w, v := c01SchedCmp(f, rooted); w >= 0 {
+			return w, v
 		}
-		for _, side := range [][2]ssa.Value{{cf.X, cf.Y}, {cf.Y, cf.X}} {
-			s, other := side[0], side[1]
-			isLen := false
-			if ln := builtinCallC(s, "len"); ln != nil {
-				s, isLen = ln.Call.Args[0], true
-			}
-			w, p := rooted(s)
-			if w < 0 || !pathIsC(p, "Spec", "NodeName") {
-				continue
-			}
-			zero := false
-			if isLen {
-				z, ok := constInt(other)
-				zero = ok && z == 0
-			} else {
-				z, ok := constString(other)
-				zero = ok && z == ""
-			}
-			if !zero {
-				continue
-			}
-			switch {
-			case cf.Op == "==":
-				return w, !cf.Pol
-			case cf.Op == "<" && side[1] == cf.X && isLen: // 0 < len
-				return w, cf.Pol
+		if call, ok := f.V.(*ssa.Call); ok && len(call.Call.Args) == 1 {
+			if cal := repoCalleeC(&call.Call); cal != nil {
+				if orient, isPred := c01SchedPredicate(cal); isPred {
+					if w, p := rooted(call.Call.Args[0]); w >= 0 && len(p) == 0 {
+						return w, f.Pol == orient
+					}
+				}
 			}
 		}
 		return -1, false
@@ -1205,16 +1198,24 @@ func c01Less(r *Run, less *ssa.Function) {
 	var atoms [2][]ssa.Value
 	for _, b := range less.Blocks {
 		for _, in := range b.Instrs {
-			bo, isB := in.(*ssa.BinOp)
-			if !isB {
+			var cond ssa.Value
+			switch x := in.(type) {
+			case *ssa.BinOp:
+				cond = x
+			case *ssa.Call:
+				if b, isBasic := x.Type().Underlying().(*types.Basic); isBasic && b.Info()&types.IsBoolean != 0 {
+					cond = x
+				}
+			}
+			if cond == nil {
 				continue
 			}
-			fl := k.normCond(bo, true)
+			fl := k.normCond(cond, true)
 			if len(fl) != 1 {
 				continue
 			}
 			if w, _ := schedOf(fl[0]); w >= 0 {
-				atoms[w] = append(atoms[w], bo)
+				atoms[w] = append(atoms[w], cond)
 			}
 		}
 	}
@@ -1326,6 +1327,90 @@ func c01Less(r *Run, less *ssa.Function) {
 		r.Check("C01.R6", construct, pos, shortFunc(less),
 			"Less(i,j) orders a scheduled pod before an unscheduled one and, among equally scheduled pods, the one created earlier first", good, "case facts: "+descFactsC(c.Facts))
 	}
+}
+
+// c01SchedCmp decodes a comparison fact about <x>.Spec.NodeName: len(s) ?= 0, 0 < len(s), s ?= "".
+// rooted tells which pod (index 0/1) a value is a field path of.
+func c01SchedCmp(f Fact, rooted func(ssa.Value) (int, []string)) (who int, val bool) {
+	cf, ok := decodeCmpC(f)
+	if !ok {
+		return -1, false
+	}
+	for _, side := range [][2]ssa.Value{{cf.X, cf.Y}, {cf.Y, cf.X}} {
+		s, other := side[0], side[1]
+		isLen := false
+		if ln := builtinCallC(s, "len"); ln != nil {
+			s, isLen = ln.Call.Args[0], true
+		}
+		w, p := rooted(s)
+		if w < 0 || !pathIsC(p, "Spec", "NodeName") {
+			continue
+		}
+		zero := false
+		if isLen {
+			z, ok := constInt(other)
+			zero = ok && z == 0
+		} else {
+			z, ok := constString(other)
+			zero = ok && z == ""
+		}
+		if !zero {
+			continue
+		}
+		switch {
+		case cf.Op == "==":
+			return w, !cf.Pol
+		case cf.Op == "<" && side[1] == cf.X && isLen: // 0 < len
+			return w, cf.Pol
+		}
+	}
+	return -1, false
+}
+
+var c01SchedPredMemo = map[*ssa.Function][2]bool{}
+
+// c01SchedPredicate: fn(pod) bool is decided on every path by whether pod.Spec.NodeName is empty.
+// orient=true: fn returns true exactly when the pod is scheduled; false: exactly when it is not.
+func c01SchedPredicate(fn *ssa.Function) (orient bool, ok bool) {
+	if m, seen := c01SchedPredMemo[fn]; seen {
+		return m[0], m[1]
+	}
+	c01SchedPredMemo[fn] = [2]bool{false, false}
+	if len(fn.Params) != 1 || !isPtrToNamed(fn.Params[0].Type(), pkgCoreV1, "Pod") {
+		return false, false
+	}
+	cases, _, okc := boolCasesC(fn, 0, 200)
+	if !okc || len(cases) == 0 {
+		return false, false
+	}
+	rooted := func(v ssa.Value) (int, []string) {
+		root, p := accessPath(unwrap(v))
+		if root == ssa.Value(fn.Params[0]) {
+			return 0, p
+		}
+		return -1, nil
+	}
+	var orientSet, first = false, true
+	for _, c := range cases {
+		known := false
+		sched := false
+		for _, f := range c.Facts {
+			if w, v := c01SchedCmp(f, rooted); w == 0 {
+				known, sched = true, v
+			}
+		}
+		if !known {
+			return false, false
+		}
+		o := c.Result == sched
+		if first {
+			orientSet, first = o, false
+		} else if o != orientSet {
+			return false, false
+		}
+	}
+	c01SchedPredMemo[fn] = [2]bool{orientSet, true}
+	return orientSet, true
 }
 
 func c01Tri(b *bool) string {
